@@ -311,7 +311,10 @@ def run_input_once(data, cut=None, rest=False, debug=False):
     try:
         sock = w.new_sock()
         Echo.sentinel = 0
-        if debug:
+        if debug == 'unix':
+            # a server bound to a UNIX socket: it has a path where others have a host, and no port
+            w.server.host, w.server.port = '/run/web.sock', None
+        elif debug:
             w.server.display_banner = True     # what a real server has by default: error pages show the traceback
         t0 = time.thread_time()
         if rest == 'drop':
@@ -443,10 +446,10 @@ def _work(part, nparts, payload):
         if idx % nparts != part:
             continue
         cuts = truncations(data) if '+' not in name else []
-        cases = [(None, False), (None, 'debug'), (None, 'drop')] + [(c, False) for c in cuts] + [(c, True) for c in cuts if c < 200] + \
+        cases = [(None, False), (None, 'debug'), (None, 'unix'), (None, 'drop')] + [(c, False) for c in cuts] + [(c, True) for c in cuts if c < 200] + \
             [(c, 'burst') for c in cuts if c < 200]
         for cut, rest in cases:
-            debug = rest == 'debug'
+            debug = rest if rest in ('debug', 'unix') else False
             rest = False if debug else rest
             obs = run_input(data, cut, rest, debug)
             if debug:
